@@ -279,9 +279,16 @@ class C06(F.Spec):
         toggle on release, bistable = toggle on every change, motion sensor = on while active, off when it ends;
         every local switch cancels a running timer.  Points closer than 400 ms to an expiry are not judged."""
         me = case.meta
-        if me.get("kind") not in ("plain", "witness"):
+        if me.get("kind") not in ("plain", "witness", "stair"):
             return []
         n = me["n"]
+        # staircase channels (a configured Time2): a switch-on runs the configured time; a button press on a lit staircase
+        # re-arms it (button type 0, 'reset') or switches it off (type 1, 'toggle')
+        stair, stype = {}, 0
+        for o in case.ops:
+            if o.startswith("staircase "):
+                stair[int(o.split()[1])] = int(o.split()[2])
+                stype = int(o.split()[3])
         cd = self.cdflag()
         fs = []
         L = {}
@@ -313,7 +320,10 @@ class C06(F.Spec):
                     L[ch] = 1 if v == 1 else 0
                     unknown.discard(ch)
                     timer.pop(ch, None)
-                    if dur > 0 and (v == 1 or me["chflags"][ch] & cd):
+                    if stair.get(ch):
+                        if v == 1:
+                            timer[ch] = (now + stair[ch], 0)
+                    elif dur > 0 and (v == 1 or me["chflags"][ch] & cd):
                         timer[ch] = (now + dur, 0 if v else 1)
             elif t[0] == "input":
                 pin, lv = int(t[1]), int(t[2])
@@ -340,16 +350,26 @@ class C06(F.Spec):
                             timer.pop(k)
                         elif dl <= at + 400:               # too close to call: C07's subject
                             unknown.add(k)
+                    def switched(newv):
+                        # the local switch of relay k: newv None = toggle
+                        timer.pop(k, None)
+                        if stair.get(k):
+                            if newv is None:
+                                newv = 1 if stype == 0 else L[k] ^ 1
+                            elif newv and stype == 0:
+                                newv = 1
+                            L[k] = newv
+                            if newv:
+                                timer[k] = (at + 120 + stair[k], 0)
+                        else:
+                            L[k] = (L[k] ^ 1) if newv is None else newv
                     if ty == 2:
                         if lv == 1:          # release of a monostable button
-                            L[k] ^= 1
-                            timer.pop(k, None)
+                            switched(None)
                     elif ty == 4:
-                        L[k] ^= 1
-                        timer.pop(k, None)
+                        switched(None)
                     elif ty == 8:
-                        L[k] = 1 if lv == 0 else 0
-                        timer.pop(k, None)
+                        switched(1 if lv == 0 else 0)
             unsure = set(e[1] for e in timer.get("edges", [])) | unknown
             for ch in [c for c in timer if c != "edges"]:
                 dl, target = timer[ch]
